@@ -1,22 +1,36 @@
 """Translator part: operator / constant tables of the decompiler -> coq/Gen/Gen_OpTables.v
    (string values as lists of character codes, after Python's own literal evaluation by ast)."""
 import ast
-from gen_tables import parse, emit, TranslatorError, HEADER, module_assign, const_str
+from gen_tables import parse, emit, TranslatorError, HEADER, module_assign, const_str, module_value
+
+REL = 'drxtract/lingosrc/ast/constant_val.py'
 
 def coq_text(s):
     return '[' + '; '.join(str(ord(c)) for c in s) + ']'
 
 def str_str_dict(tree, name):
-    node = module_assign(tree, name)
-    if not isinstance(node, ast.Dict):
-        raise TranslatorError('%s is not a dict literal' % name)
-    return [(const_str(k), const_str(v)) for k, v in zip(node.keys, node.values)]
+    try:
+        node = module_assign(tree, name)
+        if not isinstance(node, ast.Dict):
+            raise TranslatorError('%s is not a dict literal' % name)
+        return [(const_str(k), const_str(v)) for k, v in zip(node.keys, node.values)]
+    except TranslatorError as e:
+        val = module_value(REL, name, e)
+        if not (isinstance(val, dict) and all(isinstance(k, str) and isinstance(v, str) for k, v in val.items())):
+            raise TranslatorError('%s is not a dict from str to str' % name)
+        return list(val.items())
 
 def str_list(tree, name):
-    node = module_assign(tree, name)
-    if not isinstance(node, (ast.List, ast.Tuple)):
-        raise TranslatorError('%s is not a list literal' % name)
-    return [const_str(e) for e in node.elts]
+    try:
+        node = module_assign(tree, name)
+        if not isinstance(node, (ast.List, ast.Tuple)):
+            raise TranslatorError('%s is not a list literal' % name)
+        return [const_str(e) for e in node.elts]
+    except TranslatorError as e:
+        val = module_value(REL, name, e)
+        if not (isinstance(val, (list, tuple)) and all(isinstance(x, str) for x in val)):
+            raise TranslatorError('%s is not a list of str' % name)
+        return list(val)
 
 def generate():
     out = [HEADER % 'drxtract/lingosrc/ast/constant_val.py']
